@@ -91,6 +91,31 @@ func checkC11(R *Run) {
 		}
 		for _, f := range usedList {
 			R.check(removed[f], "sidefile-complete", "hotline.fileWrapper.Delete: "+f, P.pos(dl.Pos()), "removed", "Delete leaves "+f+" behind")
+			// … and on every path that reports success (a side file that does not exist must not end the function)
+			if removed[f] {
+				field := f
+				okAll, w, _ := successMustPass(dl, func(ins ssa.Instruction) bool {
+					ci, isCall := ins.(ssa.CallInstruction)
+					if !isCall {
+						return false
+					}
+					n := calleeName(ci.Common())
+					if n != "(hotline.FileStore).Remove" && n != "(hotline.FileStore).RemoveAll" && n != "os.Remove" && n != "os.RemoveAll" {
+						return false
+					}
+					for _, x := range elemFields(ci.Common().Args[0]) {
+						if shortField(x) == field {
+							return true
+						}
+					}
+					return false
+				})
+				pos := P.pos(dl.Pos())
+				if w != nil {
+					pos = P.ipos(w)
+				}
+				R.check(okAll, "sidefile-complete", "hotline.fileWrapper.Delete: "+f+" on every successful path", pos, "removed before every success return", "Delete can report success without having tried to remove "+f+" (e.g. it returns as soon as an earlier side file turns out not to exist): the fork stays behind and is inherited by the next file of that name")
+			}
 		}
 		R.check(tolerantOnlyNotExist(P, dl, 1), "sidefile-complete", "hotline.fileWrapper.Delete: error policy", P.pos(dl.Pos()), "side-file removals tolerate only ErrNotExist", "a failed removal is ignored for errors other than 'does not exist'")
 	}
@@ -292,6 +317,34 @@ func checkC11(R *Run) {
 		}
 	}
 	R.floor("wrapper-stale", 3)
+
+	// ---- path-string-compare: resolved paths are compared component-wise or not at all
+	R.rule("path-string-compare", "no strings.HasPrefix / HasSuffix / Contains relates two resolved filesystem paths (results of ReadPath): 'Music' is a string prefix of 'Music Archive' without containing it, so such a test refuses or allows operations on siblings")
+	nCmp := 0
+	isResolved := func(v ssa.Value) bool {
+		return P.reaches(v, func(x ssa.Value) bool {
+			c := callValue(x)
+			return c != nil && calleeName(&c.Call) == "hotline.ReadPath"
+		})
+	}
+	for _, fn := range P.Funcs {
+		if fn.Pkg == nil || fn.Pkg.Pkg.Path() == cmdPath {
+			continue
+		}
+		for _, ci := range callsIn(fn) {
+			c := ci.Common()
+			switch calleeName(c) {
+			case "strings.HasPrefix", "strings.HasSuffix", "strings.Contains":
+				if len(c.Args) == 2 && isResolved(c.Args[0]) && isResolved(c.Args[1]) {
+					nCmp++
+					R.bad("path-string-compare", fmt.Sprintf("%s: %s #%d", fname(fn), calleeName(c), nCmp), P.ipos(ci), "two resolved paths are related by a string test: a sibling whose name merely starts with the other's name is treated as lying inside it")
+				}
+			}
+		}
+	}
+	if nCmp == 0 {
+		R.ok("path-string-compare", "server packages", "-", "no string-prefix test between resolved paths")
+	}
 
 	// ---- ignore-both
 	if g := R.mustFn("hotline.GetFileNameList"); g != nil {
